@@ -17,7 +17,10 @@ package rules
 // Files: c04.go (resolution, flow-engine rules R-C04-1/2/6/7 and the publish-before-use part of
 // R-C04-3), c04_ssa.go (SSA rules: element-of-list half of R-C04-2, R-C04-3, R-C04-4, R-C04-5),
 // c04_weighted.go (R-C04-8, added in the second pass for seeded change a: weighted selection =
-// cumulative subtraction over exactly the summed weights; its mutants are listed there).
+// cumulative subtraction over exactly the summed weights; its mutants are listed there),
+// c04_types.go (extra obligations of R-C04-3, added for round-2 seeded change b: one concrete
+// balancer type per policy, chosen by the pool's spec only; only NewLoadBalancer's result is stored
+// into the pool's atomic.Value; also the policy -> implementation resolution used by the others).
 //
 // Tested on the tree this was developed against (scratch worktree @ ce8b88e): exit 1 with
 // exactly one violation,
@@ -100,15 +103,18 @@ type c04Impl struct {
 }
 
 type c04Info struct {
-	iface    *types.Named
-	ifaceT   *types.Interface
-	choose   *types.Func // interface method
-	server   *types.Named
-	listType types.Type
-	impls    []*c04Impl
-	byPolicy map[string]*c04Impl
-	byMethod map[*types.Func]*c04Impl
-	owner    map[*types.Var]string // field -> "pkg/rel.Struct"
+	iface       *types.Named
+	ifaceT      *types.Interface
+	choose      *types.Func // interface method
+	server      *types.Named
+	listType    types.Type
+	impls       []*c04Impl
+	byPolicy    map[string]*c04Impl
+	byMethod    map[*types.Func]*c04Impl
+	owner       map[*types.Var]string // field -> "pkg/rel.Struct"
+	policyImpls map[string][]*c04Impl // every implementation a policy can yield
+	cases       []c04PolicyCase       // case clauses of NewLoadBalancer's policy switch
+	outside     *c04TypeSet           // returns of NewLoadBalancer outside the switch (nil = none)
 }
 
 func c04(c *core.Ctx) string {
@@ -140,6 +146,7 @@ func c04(c *core.Ctx) string {
 	c04Bounds(c, info)
 	c04Discovery(c, info)
 	c04Published(c, info)
+	c04OneType(c, info)
 	c04SSA(c, info)
 	c04Weighted(c, info)
 	return "Shape rules for the proxy load balancers: nil result never dereferenced or sent (path-sensitive, all ChooseServer call sites); every implementation returns nil only for a list known empty and otherwise an element load of its immutable list (flow engine + SSA value flow); list/keys/weights immutable after construction and the balancer published only through atomic.Value on every path of NewServerPool; the round-robin index comes from a single atomic fetch-add; hash policies reach no source of nondeterminism or mutable state; every random bound / divisor is proven positive on all paths; discovery publishes the filtered list or, exactly when it is empty, the static list. Not decided: distributions and counts, arithmetic reachability of the weightedRandom BUG panic, schedules."
@@ -149,7 +156,7 @@ func c04(c *core.Ctx) string {
 // resolution
 
 func c04Resolve(c *core.Ctx) *c04Info {
-	info := &c04Info{byPolicy: map[string]*c04Impl{}, byMethod: map[*types.Func]*c04Impl{}, owner: map[*types.Var]string{}}
+	info := &c04Info{byPolicy: map[string]*c04Impl{}, byMethod: map[*types.Func]*c04Impl{}, owner: map[*types.Var]string{}, policyImpls: map[string][]*c04Impl{}}
 	info.iface = namedType(c, c04pkg, "LoadBalancer")
 	info.server = namedType(c, c04pkg, "Server")
 	if info.iface == nil || info.server == nil {
@@ -247,46 +254,53 @@ func c04Resolve(c *core.Ctx) *c04Info {
 	if nf == nil {
 		return nil
 	}
-	ast.Inspect(nf.Body, func(n ast.Node) bool {
-		sw, ok := n.(*ast.SwitchStmt)
-		if !ok {
-			return true
-		}
-		for _, cl := range sw.Body.List {
-			cc := cl.(*ast.CaseClause)
-			var impl *c04Impl
-			for _, s := range cc.Body {
-				rs, ok := s.(*ast.ReturnStmt)
-				if !ok || len(rs.Results) != 1 {
-					continue
+	npkg, nfd := c.Prog.FuncDecl(c04pkg, "", "NewLoadBalancer")
+	cases, outside, sw := c04PolicyCases(c, npkg, nfd)
+	if sw == nil {
+		c.Errorf("anchor: NewLoadBalancer has no switch over the policy")
+		return nil
+	}
+	info.cases, info.outside = cases, outside
+	ambiguous := map[string]bool{}
+	for _, pc := range cases {
+		var impl *c04Impl
+		if len(pc.set.types) == 1 {
+			for _, t := range pc.set.types {
+				if p, ok := t.(*types.Pointer); ok {
+					t = p.Elem()
 				}
-				if tv, ok := nf.Info.Types[rs.Results[0]]; ok && tv.Type != nil {
-					t := tv.Type
-					if p, ok := t.(*types.Pointer); ok {
-						t = p.Elem()
+				for _, im := range info.impls {
+					if types.Identical(t, im.named) {
+						impl = im
 					}
-					for _, im := range info.impls {
-						if types.Identical(t, im.named) {
-							impl = im
+				}
+			}
+		}
+		for _, p := range pc.policies {
+			for _, t := range pc.set.types {
+				if pt, ok := t.(*types.Pointer); ok {
+					t = pt.Elem()
+				}
+				for _, im := range info.impls {
+					if types.Identical(t, im.named) {
+						info.policyImpls[p] = append(info.policyImpls[p], im)
+						if len(pc.set.types) > 1 {
+							im.policies = append(im.policies, p)
 						}
 					}
 				}
 			}
-			if impl == nil {
-				continue
+			if len(pc.set.types) > 1 {
+				ambiguous[p] = true // reported as a violation by c04OneType; policy-specific rules are skipped
 			}
-			for _, x := range cc.List {
-				if tv, ok := nf.Info.Types[x]; ok && tv.Value != nil && tv.Value.Kind() == constant.String {
-					p := constant.StringVal(tv.Value)
-					info.byPolicy[p] = impl
-					impl.policies = append(impl.policies, p)
-				}
+			if impl != nil {
+				info.byPolicy[p] = impl
+				impl.policies = append(impl.policies, p)
 			}
 		}
-		return true
-	})
+	}
 	for _, p := range []string{"roundRobin", "random", "weightedRandom", "ipHash", "headerHash"} {
-		if info.byPolicy[p] == nil {
+		if info.byPolicy[p] == nil && !ambiguous[p] {
 			c.Errorf("anchor: NewLoadBalancer has no switch case for policy %q returning a LoadBalancer implementation", p)
 		}
 	}
